@@ -25,7 +25,7 @@ PROP = "C06"
 INPUT_KEYS = {"k", "l", "x", "y", "fl"}
 INVS = ["TypeOK", "DepthBound", "ModBeforeStep", "OneTriggerPerChange", "TruePrevious", "StartFirst", "StopLast",
         "NothingLeftBehind", "DeadIsFinal", "BigStepAgrees", "Emit"]
-ALL = "{1,2,3,4,5,6,7,8,9,10,11,12,13,14,15,16,17}"
+ALL = "{1,2,3,4,5,6,7,8,9,10,11,12,13,14,15,16,17,18,19,20}"
 CMD_KINDS = {"cmd", "set", "upd", "rem", "clr", "take", "drop"}
 MAX_REPORT = 8
 
@@ -34,17 +34,20 @@ EXH_QUICK = [
     ("cascade", 1, "{2}", "{1,3,4,6}", "{2}", "StimsQuick", "MapsEmpty"),      # depth-first order, true previous, failure
     ("two-stimuli", 2, "{2}", "{3,4}", "{2}", "StimsQuick", "MapsEmpty"),      # state carried across stimuli
     ("top-level", 1, "{3,5,8}", "{2,3}", "{2,7}", "StimsTiny", "MapsEmpty"),   # cascades out of on_start / on_stop, suspend
-    ("suspend-stop", 2, "{2}", "{8,13}", "{2}", "StimsTiny", "MapsEmpty"),     # suspended handlers, StopInstructed
+    ("suspend", 2, "{2}", "{3,8,15}", "{2}", "StimsTiny", "MapsEmpty"),        # suspended handlers (and failing ones) run later
+    ("stop", 2, "{2,12}", "{3,12,13}", "{2,12}", "StimsTiny", "MapsEmpty"),    # StopInstructed: unwinds, on_stop still last
     ("map", 1, "{2}", "{9,10,14}", "{2,17}", "StimsFull", "MapsBoth"),         # map events with the true previous entry
+    ("styles", 1, "{2}", "{5,11,16}", "{2}", "StimsTiny", "MapsEmpty"),         # combinator styles, same value twice
+    ("styles-b", 1, "{2}", "{18,19,20}", "{2}", "StimsTiny", "MapsEmpty"),       # join / and_then_contextual / and_then_try
 ]
 EXH_THOROUGH = EXH_QUICK + [
-    ("cascade-2", 2, "{2}", "{1,3,4,6}", "{2}", "StimsQuick", "MapsBoth"),
-    ("styles", 1, "{2,3}", "{3,5,7,11,16}", "{2,7}", "StimsQuick", "MapsBoth"),
-    ("suspend-fail", 2, "{2,8}", "{3,8,15}", "{2,15}", "StimsQuick", "MapsEmpty"),
-    ("stop", 2, "{2,12}", "{3,12,13}", "{2,12}", "StimsQuick", "MapsEmpty"),
+    ("cascade-2", 2, "{2}", "{1,3,4,6}", "{2}", "StimsQuick", "MapsEmpty"),
+    ("styles-2", 1, "{2}", "{5,7,11,16,18,19,20}", "{2,7}", "StimsQuick", "MapsEmpty"),
+    ("top-level-2", 1, "{2,3}", "{1,3,4,6}", "{2,7}", "StimsQuick", "MapsEmpty"),
+    ("suspend-fail", 2, "{2,8}", "{3,8,15}", "{2,15}", "StimsTiny", "MapsEmpty"),
     ("map-2", 2, "{2}", "{9,14}", "{2,17}", "StimsFull", "MapsBoth"),
 ]
-SIM = dict(MaxStim=4, Top="{1,2,3,5,8,12}", Shapes=ALL, Map="{1,2,7,12,15,17}", Stims="StimsFull", Maps="MapsBoth")
+SIM = dict(MaxStim=4, Top="{1,2,3,5,8}", Shapes=ALL, Map="{1,2,7,12,15,17}", Stims="StimsFull", Maps="MapsBoth")
 
 
 def tlc_cfg(maxstim, top, shapes, mapshapes, stims, maps):
@@ -87,7 +90,7 @@ def make_case(cid, rep, sched):
     batch = sched["batch"]
     return {"id": cid, "cfg": {"prog": rep["prog"], "m0": rep["m0"], "buf": sched["buf"], "drain": sched["drain"],
                                 "batch": batch},
-            "acts": expected_acts(rep["acts"], batch), "model_acts": rep["acts"]}
+            "acts": expected_acts(rep["acts"], batch)}
 
 
 SCHEDULES = [dict(buf=4096, drain=True, batch=False), dict(buf=64, drain=True, batch=False),
@@ -95,34 +98,24 @@ SCHEDULES = [dict(buf=4096, drain=True, batch=False), dict(buf=64, drain=True, b
              dict(buf=32, drain=False, batch=True)]
 
 
-def has_failure(prog, acts):
-    return any(o["op"] == "fail" for b in prog.values() for o in flat(b["ops"]))
-
-
-def flat(ops):
-    for o in ops:
-        yield o
-        for q in flat(o.get("p", [])):
-            yield q
-
-
 def p_validate(case, result):
     """Only reached when the observation differs from the specification.  The statement fixes everything up to and
     including a failure; what the agent does afterwards (FailPolicy) is not part of it: accept exactly the
-    alternatives 'the agent ends' / 'the agent ends after running on_stop' / 'the agent carries on'."""
+    alternatives 'the agent ends' / 'the agent ends after running on_stop' / 'the agent carries on'.
+    (Behaviours with a failure are never run with the batch schedule, so stimuli and observations align.)"""
     if result.get("panic"):
         return {"accepted": False, "detail": "panic in the harness or the code under test: %s" % result["panic"]}
     exp, obs = case["acts"], result.get("obs", [])
     if len(obs) != len(exp) or case["cfg"]["batch"]:
         return {"accepted": False, "detail": ""}
-    if not has_failure(case["cfg"]["prog"], exp):
-        return {"accepted": False, "detail": "(no handler of this program can fail: the order is fully determined)"}
     for j, (e, o) in enumerate(zip(exp, obs)):
-        if rp.project(e, INPUT_KEYS | {"model_acts"}) == o:
+        if rp.project(e, INPUT_KEYS) == o:
             continue
+        if e.get("fl") != 1:
+            return {"accepted": False, "detail": "(no handler fails while this stimulus is handled: the order is fully determined)"}
         oe, ee = o.get("ev", []), e["ev"]
         if o.get("fin") == "panic" or oe[:len(ee)] != ee:
-            return {"accepted": False, "detail": "events before the failure differ"}
+            return {"accepted": False, "detail": "the events up to the failure differ"}
         rest = oe[len(ee):]
         ends = o.get("fin") in ("err", "ok", "init_err")
         tail_ok = all(x.get("ev") == [] and x.get("fin") == o.get("fin") for x in obs[j + 1:])
@@ -148,29 +141,32 @@ def compact(rep):
 def replay_cases(out, reps, wd, tag, rng, what, stats, all_schedules=False):
     cases = []
     for i, rep in enumerate(reps):
-        scheds = SCHEDULES if all_schedules else [SCHEDULES[0], SCHEDULES[1 + rng.randrange(len(SCHEDULES) - 1)]]
+        failing = any(a.get("fl") == 1 for a in rep["acts"])
+        avail = [s for s in SCHEDULES if not (failing and s["batch"])]
+        scheds = avail if all_schedules else [avail[0], avail[1 + rng.randrange(len(avail) - 1)]]
         for j, s in enumerate(scheds):
             cases.append(make_case("%s.%d.%d" % (tag, i, j), rep, s))
-    send = [{"id": c["id"], "cfg": c["cfg"], "acts": [rp.inputs(a, INPUT_KEYS) for a in c["acts"]]} for c in cases]
+    send = [{"id": c["id"], "cfg": c["cfg"], "acts": [rp.inputs(a, INPUT_KEYS - {"fl"}) for a in c["acts"]]} for c in cases]
     results = rp.run_cases("h_runtime", "handlers", send, wd, tag=tag, input_keys=None, strip=False)
-    for c in cases:
-        c.pop("model_acts")
-    # one replay file per distinct failure is enough: keep the first MAX_REPORT mismatching runs, count the rest
+    # one replay file per distinct failure is enough: every conforming or merely drifting run is kept, of the runs the
+    # property rejects the first MAX_REPORT are reported, the rest is counted
     keep_c, keep_r, extra = [], [], 0
     for c, r in zip(cases, results):
         if r.get("panic") or rp.first_diff(c["acts"], r.get("obs", []), INPUT_KEYS) is not None:
-            if stats.get("mismatching", 0) >= MAX_REPORT:
-                extra += 1
-                continue
-            stats["mismatching"] = stats.get("mismatching", 0) + 1
+            if not p_validate(c, r).get("accepted"):
+                if stats.get("reported", 0) >= MAX_REPORT:
+                    extra += 1
+                    continue
+                stats["reported"] = stats.get("reported", 0) + 1
         keep_c.append(c)
         keep_r.append(r)
     if extra:
-        stats["further_mismatching_runs_not_reported"] = stats.get("further_mismatching_runs_not_reported", 0) + extra
+        stats["further_rejected_runs_not_reported"] = stats.get("further_rejected_runs_not_reported", 0) + extra
     cases, results = keep_c, keep_r
-    st = rp.conformance(out, cases, results, INPUT_KEYS, p_validate, what)
+    st = rp.conformance(out, cases, results, INPUT_KEYS, p_validate, what, max_validate=10 ** 9)
     for k in ("cases", "steps", "conform", "drift", "rejected", "panics"):
         stats[k] = stats.get(k, 0) + st[k]
+    stats["rejected"] += extra
     stats["events"] = stats.get("events", 0) + sum(len(a["ev"]) for c in cases for a in c["acts"])
     return st
 
@@ -202,8 +198,8 @@ def run(tier, out):
             programs.add(core.canon(rep["prog"]))
 
     for (name, ms, top, sh, mp, stims, maps) in (EXH_QUICK if tier == "quick" else EXH_THOROUGH):
-        r = core.run_tlc("MC_Handlers", tlc_cfg(ms, top, sh, mp, stims, maps), os.path.join(wd, "mc_" + name), workers=1,
-                         timeout=1500)
+        r = core.run_tlc("MC_Handlers", tlc_cfg(ms, top, sh, mp, stims, maps), os.path.join(wd, "mc_" + name),
+                         workers=2 if tier == "quick" else 4, timeout=1500)
         check_model(r, name)
         account(r)
         states += r.distinct
@@ -220,7 +216,7 @@ def run(tier, out):
         if out.violations:
             break       # the property is already refuted on the real code: no need to enumerate further
 
-    n = 1500 if tier == "quick" else 40000
+    n = 2500 if tier == "quick" else 40000
     if out.violations:
         n = 200
     c = tlc_cfg(SIM["MaxStim"], SIM["Top"], SIM["Shapes"], SIM["Map"], SIM["Stims"], SIM["Maps"])
@@ -237,7 +233,7 @@ def run(tier, out):
             reps.append(rep)
     note(reps)
     st = replay_cases(out, reps, wd, "sim", rng, "Handlers[simulation]", stats, all_schedules=(tier != "quick"))
-    core.log("[C06] simulation (17 shapes, 4 stimuli): %d behaviours (%d distinct), %d states generated (%.0fs) -> %d runs: "
+    core.log("[C06] simulation (20 shapes, 4 stimuli): %d behaviours (%d distinct), %d states generated (%.0fs) -> %d runs: "
              "conform=%d drift=%d rejected=%d" % (len(r.tagged["REPLAY"]), len(reps), sgen, r.wall, st["cases"], st["conform"],
                                                   st["drift"], st["rejected"]))
     if reps:
@@ -249,11 +245,11 @@ def run(tier, out):
             simulation_states_generated=sgen, behaviours_generated=behaviours, distinct_programs=len(programs),
             agent_runs=stats.get("cases", 0), stimuli_replayed=stats.get("steps", 0), events_compared=stats.get("events", 0),
             model_drift=stats.get("drift", 0),
-            mismatching_runs_not_reported=stats.get("further_mismatching_runs_not_reported", 0),
+            rejected_runs_not_reported=stats.get("further_rejected_runs_not_reported", 0),
             action_coverage={a: {"distinct": d, "taken": t} for a, (d, t) in sorted(cov.items())},
             actions_never_taken=never, exhaustive=True,
             rule="a case = (program: body of every reached lifecycle slot, initial map, stimulus sequence, schedule); TLC "
-                 "enumerates all of them for the small pools and samples the 17-shape pool; each is run on a real AgentModel and "
+                 "enumerates all of them for the small pools and samples the 20-shape pool; each is run on a real AgentModel and "
                  "the per-stimulus event lists and the agent's fate are compared for equality with Handlers.tla",
             checker_cmd="tlc MC_Handlers (INVARIANTS %s) exhaustive x%d + -simulate num=%d; h_runtime handlers" % (
                 " ".join(INVS[:-1]), len(EXH_QUICK if tier == "quick" else EXH_THOROUGH), n))
